@@ -109,6 +109,9 @@ func (a *A) ruleGapSplit() {
 			if t.Kind == "extract" && t.Idx == 0 && t.Base.Kind == "call" && t.Base.Name == "window.extractTimestamp" {
 				return "ts"
 			}
+			if t.Kind == "call" && t.Name == "time.Now" {
+				return "ts" // processing-time fallback stamp of the arriving row
+			}
 			if f, base := slotField(t); f == "End" && isFieldOf(base, "window.session", "slot") {
 				return "E"
 			}
@@ -126,7 +129,16 @@ func (a *A) ruleGapSplit() {
 		}}
 	a.OnlyIf(construct, lk.Pos(), "an event further than the timeout after the key's open session does not join that session", spec,
 		add.Blocks[0], nil, nil,
-		func(in ssa.Instruction, _ *Walker) bool { return tset[in] },
+		func(in ssa.Instruction, w *Walker) bool {
+			if !tset[in] {
+				return false
+			}
+			// only an append to the session that was found in the map counts (a session created on
+			// this path is a new one)
+			st := in.(*ssa.Store)
+			base := w.Term(st.Addr.(*ssa.FieldAddr).X)
+			return base.Kind == "index" && base.Base.Kind == "field" && base.Base.Field == smap
+		},
 		func(r map[string]int, _ map[string]bool) bool { return r["ts"] <= r["E"] })
 	_ = token.NoPos
 	_ = types.Typ
